@@ -27,7 +27,13 @@ var xmlEsc = strings.NewReplacer("&", "&amp;", "<", "&lt;", ">", "&gt;", `"`, "&
 func newGenWorld(t *tape.Tape, format string, o GenOpts, allowItems bool) (*World, Shape, string, bool) {
 	enc, cs, bom := drawEncoding(t, o.Encodings)
 	sh := DrawShape(t, cs, allowItems)
+	if o.NumericFilter {
+		sh.NumericFilter, sh.SkipValue = true, ""
+	}
 	w := &World{Format: format, Generated: true, Tags: map[string]string{}}
+	if sh.NumericFilter {
+		w.Tags["family"] = "numeric-filter"
+	}
 	w.Shape = sh
 	return w, sh, enc, bom
 }
@@ -110,7 +116,9 @@ func genXML(t *tape.Tape, o GenOpts) *World {
 	addJSPoisonable(t, w, decls, o, fn)
 	addAncestorJS(w, decls, o)
 	target := "/root/rec"
-	if sh.SkipValue != "" {
+	if sh.NumericFilter {
+		target = "/root/rec[F1 >= 0]"
+	} else if sh.SkipValue != "" {
 		target = "/root/rec[F0 != '" + sh.SkipValue + "']"
 	}
 	decls["FINAL_OUTPUT"].(D)["xpath"] = target
@@ -182,7 +190,9 @@ func genJSON(t *tape.Tape, o GenOpts) *World {
 	addJSPoisonable(t, w, decls, o, fn)
 	addAncestorJS(w, decls, o)
 	target := "/recs/*"
-	if sh.SkipValue != "" {
+	if sh.NumericFilter {
+		target = "/recs/*[F1 >= 0]"
+	} else if sh.SkipValue != "" {
 		target = "/recs/*[F0 != '" + sh.SkipValue + "']"
 	}
 	decls["FINAL_OUTPUT"].(D)["xpath"] = target
